@@ -50,6 +50,9 @@ pub struct GenCfg {
     /// selector style "the same annotation named twice" (off for C08: a constraint's own answer then has duplicates)
     #[serde(default = "yes")]
     pub same_annotation_twice: bool,
+    /// share (in percent) of characters drawn from digits and '.', so that selections read like numbers
+    #[serde(default)]
+    pub pct_digits: usize,
 }
 
 pub const W_ADD_RESOURCE: usize = 0;
@@ -129,6 +132,7 @@ impl GenCfg {
             allow_odd_ids: false,
             pct_redraw_residue: 0,
             same_annotation_twice: true,
+            pct_digits: 0,
         }
     }
 }
@@ -159,6 +163,10 @@ pub fn gen_text(rng: &mut Rng, cfg: &GenCfg) -> String {
     }
     let mut s = String::new();
     for _ in 0..len {
+        if cfg.pct_digits > 0 && rng.below(100) < cfg.pct_digits {
+            s.push(*rng.pick(&['0', '1', '4', '9', '9', '.', ' ']));
+            continue;
+        }
         let set = *rng.pick(&sets);
         s.push(*rng.pick(set));
     }
@@ -731,6 +739,17 @@ impl<'a> Gen<'a> {
             W_ADD_RESOURCE => Op::AddResource {
                 id: pool_id(self.rng, "r", self.cfg.n_res_ids + m.resources.len() / 2, self.cfg.allow_odd_ids),
                 text: gen_text(self.rng, self.cfg),
+                // now and then the resource is built by hand and its text is replaced before it is added
+                // (a first text of another length and byte layout, usually longer)
+                replaced: if self.rng.chance(1, 6) {
+                    let mut first = gen_text(self.rng, self.cfg);
+                    if self.rng.chance(2, 3) {
+                        first.push_str("abcdefghijklmnopqrstuvwxyz0123456789");
+                    }
+                    Some(first)
+                } else {
+                    None
+                },
             },
             W_ADD_DATASET => {
                 // now and then: declare a key without data in an existing dataset
